@@ -10,6 +10,7 @@ DB_FUNS = ['engine.YP._clauses', 'engine.YP._find_predicates', 'engine.YP._updat
 COPY_FUNS = ['engine._copy_term', 'engine.copy_terms', 'engine.Answer.match']
 BUILTIN_REG = ['engine.YP._set_builtin_predicates', 'engine.YP.register_function']
 META_FUNS = ['engine.YP.call', 'engine.YP.once', 'engine.YP.findall', 'engine.YP.builtin_neq', 'engine.builtin_eq'] + BUILTIN_REG
+CTOR_API = ['engine.YP.' + f for f in ('functor', 'functor1', 'functor2', 'functor3', 'listpair', 'variable', 'makelist')]
 RESOLVE_FUNS = ['engine.YP.query', 'engine.YP.register_function']
 ITER_CLASSES = ['engine.YPSuccess.__init__', 'engine.YPSuccess.__next__', 'engine.YPSuccess.close', 'engine.YPFail.__next__', 'engine.YPFail.close']
 GEN_FUNS = ['engine.YP.query', 'engine.YP.call', 'engine.YP.once', 'engine.YP.findall', 'engine.YP.builtin_neq',
